@@ -214,3 +214,18 @@ Example C15_gets_example :
   gets 3 (t_state (run 1 [OAdd (1,1,0); OAdd (65537,1,0); OProposed [(1,1,0)]; OAdd (1,2,0)]))
   = (mkState 1 [(1,1)] [] false, [[(65537,1,0)]; [(1,2,0)]]).
 Proof. vm_compute. reflexivity. Qed.
+
+(* hand-off: one buffered token serves several waiting Gets.  Two Gets at their select (parked or
+   about to park) and two full fresh batches cached: there is an execution in which the first takes
+   the token and the oldest batch, re-signals, and the second takes the next batch. *)
+Theorem C15_conc_handoff_two_waiters_partial : forall bs s i j, creach bs s -> 1 <= bs ->
+  2 * bs <= len (filter (fresh (seqs (sh s))) (cache (sh s))) ->
+  lock s = None -> (forall t, pcs s t <> PGetRecv) ->
+  i <> j -> pcs s i = PGetWait -> pcs s j = PGetWait ->
+  let F := filter (fresh (seqs (sh s))) (cache (sh s)) in
+  exists s' b1 b2,
+    csteps s s' /\
+    pcs s' i = PGetDone b1 /\ (pcs s' j = PGetDone b2 \/ pcs s' j = PGetSig b2) /\
+    b1 = firstn (N.to_nat bs) F /\ b2 = firstn (N.to_nat bs) (skipn (N.to_nat bs) F).
+Proof. exact handoff_two_waiters. Qed.
+Print Assumptions C15_conc_handoff_two_waiters_partial.
